@@ -346,7 +346,7 @@ func (e *Engine) hintOutputs(s *State, f *Frame, x *ssa.Call, hint *ssa.Function
 		for i := range outs {
 			outs[i] = e.freshField(s, "hint."+hint.Name())
 		}
-		e.hintSites = append(e.hintSites, hintSite{Fn: hint.Name(), In: ins, Out: outs, Func: funcKey(f.fn), Pos: e.posOf(x.Pos())})
+		s.hints = append(s.hints, hintSite{Fn: hint.Name(), In: ins, Out: outs, Func: funcKey(f.fn), Pos: e.posOf(x.Pos())})
 		return outs
 	}
 	// COMPLETE: honest values given by the hint function's own (verified) contract
@@ -610,10 +610,28 @@ func (e *Engine) externalModel(s *State, f *Frame, x *ssa.Call, name string, cal
 		o := newObject("Goldilocks.Modulus", nil)
 		s.heap[o] = VInt{PT()}
 		return VPtr{Obj: o}, true
+	case "(github.com/consensys/gnark-crypto/ecc.ID).ScalarField":
+		e.note("ecc.ID.ScalarField(): the curve is BN254 (the only curve the module compiles for)")
+		o := newObject("ScalarField", nil)
+		s.heap[o] = VInt{RT()}
+		return VPtr{Obj: o}, true
 	case "github.com/consensys/gnark/std/math/bits.WithNbDigits":
 		return VOpaque{Kind: "nbdigits", Data: asInt(args[0])}, true
+	case "github.com/consensys/gnark/std/math/bits.WithUnconstrainedOutputs", "github.com/consensys/gnark/std/math/bits.WithUnconstrainedInputs":
+		return VOpaque{Kind: "bits-unconstrained"}, true
 	case "github.com/consensys/gnark/std/math/bits.ToBinary":
 		n := 254
+		for _, o := range e.variadic(s, args[2]) {
+			if op, ok := o.(VOpaque); !ok || op.Kind != "nbdigits" {
+				// any other option (WithUnconstrainedOutputs, unknown ones): the output bits are not
+				// asserted boolean, so the decomposition implies no range at all
+				e.note("bits.ToBinary with an option other than WithNbDigits: outputs treated as unconstrained (no range fact)")
+				if e.mode == COMPLETE {
+					return VSlice{Off: Int64C(0), Len: Int64C(0), Cap: Int64C(0)}, true
+				}
+				return VSlice{Off: Int64C(0), Len: Int64C(0), Cap: Int64C(0)}, true
+			}
+		}
 		for _, o := range e.variadic(s, args[2]) {
 			if op, ok := o.(VOpaque); ok && op.Kind == "nbdigits" {
 				nt := op.Data.(*Term)
